@@ -91,7 +91,7 @@ def _gen_task(rng, name, up, consumed, force=None):
     nout = rng.choice([1, 1, 1, 2, 2, 3])
     if not up and rng.random() < 0.5:
         npos = 0
-    if force == "src" or (force is None and rng.random() < 0.2):
+    if force == "src" or (force is None and rng.random() < 0.3):
         up = []                           # a further source task: only static inputs (several sources -> work for several hosts)
     if force == "gen-src":
         nout = rng.choice([2, 3])
@@ -138,7 +138,7 @@ def gen_spec(rng, dense=False):
     """One random job + cluster shape. `dense`: 4-6 tasks, the features the quick tier must not miss are forced
     (multi-output generator source, a second source task, keyword edge into a defaulted parameter, >=2 positional
     edges from different tasks, >=2 workers in total), every sink task's outputs requested."""
-    n = rng.choice([4, 5, 6]) if dense else rng.randint(2, 6)
+    n = rng.choice([4, 5, 6]) if dense else rng.choice([2, 3, 3, 4, 4, 5, 5, 6, 6])
     hosts, workers = rng.choice([(2, 1), (2, 2), (1, 2), (2, 1)]) if dense else rng.choice([(1, 1), (1, 2), (2, 1), (2, 2), (2, 1)])
     perm = list(range(n))
     rng.shuffle(perm)                     # topological order != order of the names
@@ -411,13 +411,14 @@ def check_case(spec, ref=None, note=None):
 
 
 def correspond_real(ctx):
-    """3 (quick) / 40 (thorough) end-to-end runs; the first three of either tier are `dense` cases."""
+    """3 (quick) / 40 (thorough) end-to-end runs; the first three of either tier and every second one after them are
+    `dense` cases, the others unconstrained random ones (incl. 2-task jobs, 1 host x 1 worker)."""
     n = ctx.budget(3, 40)
     t0 = time.time()
     reported = 0
     for i in range(n):
         seed = ctx.rng.randrange(1 << 30)
-        spec = gen_spec(random.Random(seed), dense=i < 3)
+        spec = gen_spec(random.Random(seed), dense=i < 3 or i % 2 == 1)
         spec["seed"] = seed
         case = {"real": spec}
         feats = features(spec)
